@@ -6,6 +6,7 @@ package main
 import (
 	"fmt"
 	"go/constant"
+	"go/token"
 	"go/types"
 	"sort"
 	"strings"
@@ -29,24 +30,30 @@ func (w *World) methodsOf(pkg, typ string) []*ssa.Function {
 func init() {
 	reg("C01-R7", "BufferPoolManager.mutex pairing: every method returns with the pool mutex released on every path (no exit keeps it locked, no double lock, no unlock of an unheld mutex); getFrameID is entered and left with the mutex held", func(w *World, r *Report) {
 		n := 0
+		hs := w.bpmHelpers()
 		for _, fn := range w.methodsOf("storage/buffer", "BufferPoolManager") {
 			n++
-			callerHolds := callerHoldsBPM[fn.Name()]
+			h, isHelper := hs[fn]
 			init := map[string]string{}
-			recv := "p:" + fn.Params[0].Name()
-			mu := recv + ".mutex"
-			if callerHolds {
+			mu := bpmRecvMutex(fn)
+			if h.EntryHeld {
 				init[mu] = "W"
 			}
 			var issues []string
+			if h.Mixed {
+				issues = append(issues, "its exits disagree on whether b.mutex is held")
+			}
 			lw := &LockWalk{W: w, Fn: fn, Init: init,
 				OnReturn: func(ret *ssa.Return, st *LState) {
 					held := st.Holds(mu, false)
-					if callerHolds && !held {
-						issues = append(issues, "returns at "+w.InstrPos(ret)+" with the mutex released although its callers hold it")
+					if isHelper && !h.Mixed && held != h.ExitHeld {
+						issues = append(issues, "returns at "+w.InstrPos(ret)+" against its summarised contract")
 					}
-					if !callerHolds && held {
+					if token.IsExported(fn.Name()) && !callerHoldsBPMExported[fn.Name()] && held {
 						issues = append(issues, "returns at "+w.InstrPos(ret)+" with b.mutex still locked")
+					}
+					if callerHoldsBPMExported[fn.Name()] && !held {
+						issues = append(issues, "returns at "+w.InstrPos(ret)+" with the mutex released although its callers hold it")
 					}
 				},
 				OnIssue: func(kind string, in ssa.Instruction, name string, st *LState) {
@@ -55,6 +62,7 @@ func init() {
 					}
 				},
 			}
+			lw.CallEffect = w.bpmCallEffect(fn, hs, func(in ssa.Instruction, msg string) { issues = append(issues, msg) })
 			lw.Run()
 			if lw.Truncated {
 				r.Undecided("BPM."+fn.Name()+":mutex-pairing", "state space cap hit", "")
@@ -78,26 +86,35 @@ func init() {
 			"GetPoolSize":        "test helper; no non-test caller",
 		}
 		nAcc := 0
+		hs := w.bpmHelpers()
+		// a caller-holds helper is reachable only from the pool's own methods (whose call sites are walked below)
+		for f, h := range hs {
+			if !h.EntryHeld || token.IsExported(f.Name()) {
+				continue
+			}
+			for _, cs := range w.Callers(f) {
+				top := topFunc(cs.Caller)
+				if w.IsTestFunc(top) || top.Synthetic != "" {
+					continue // promoted-method wrappers of embedding types have no callers of their own for an unexported method
+				}
+				if top != cs.Caller || top.Signature.Recv() == nil || !strings.Contains(top.Signature.Recv().Type().String(), "buffer.BufferPoolManager") {
+					r.Bad("BPM."+f.Name()+":caller-holds-called-from:"+funcKey(cs.Caller), "functions entered with b.mutex held are called only from pool methods", funcKey(cs.Caller)+" calls "+f.Name())
+				}
+			}
+		}
 		for _, fn := range w.methodsOf("storage/buffer", "BufferPoolManager") {
 			if _, ok := exempt[fn.Name()]; ok {
 				continue
 			}
-			recv := "p:" + fn.Params[0].Name()
-			mu := recv + ".mutex"
+			mu := bpmRecvMutex(fn)
 			init := map[string]string{}
-			if callerHoldsBPM[fn.Name()] {
+			if hs[fn].EntryHeld {
 				init[mu] = "W"
 			}
 			var bad []string
 			lw := &LockWalk{W: w, Fn: fn, Init: init,
+				CallEffect: w.bpmCallEffect(fn, hs, func(in ssa.Instruction, msg string) { bad = append(bad, msg) }),
 				OnInstr: func(in ssa.Instruction, st *LState) {
-					if c, ok := in.(*ssa.Call); ok {
-						if f := c.Call.StaticCallee(); f != nil && callerHoldsBPM[f.Name()] && f.Signature.Recv() != nil && strings.Contains(f.Signature.Recv().Type().String(), "BufferPoolManager") {
-							if !st.Holds(mu, false) {
-								bad = append(bad, "call of caller-holds function "+f.Name()+" at "+w.InstrPos(in)+" without the mutex")
-							}
-						}
-					}
 					fa, ok := in.(*ssa.FieldAddr)
 					if !ok {
 						return
@@ -465,8 +482,134 @@ func init() {
 	})
 }
 
-// functions of BufferPoolManager that are entered with b.mutex held (every call site is checked)
-var callerHoldsBPM = map[string]bool{"getFrameID": true, "PrintReplacerInternalState": true, "ReturnBuffer": true}
+// exported functions of BufferPoolManager that are entered with b.mutex held (every call site is checked);
+// unexported helpers are summarised from their bodies (bpmHelpers)
+var callerHoldsBPMExported = map[string]bool{"PrintReplacerInternalState": true, "ReturnBuffer": true}
+
+// bpmHelper is the mutex contract of one BufferPoolManager method, derived from its body: whether it must be
+// entered with b.mutex held, and whether it returns with it held. Extracting a private helper out of a pool
+// method ("caller must have b.mutex") therefore needs no table edit.
+type bpmHelper struct {
+	EntryHeld, ExitHeld bool
+	Mixed               bool // exits disagree: no contract
+}
+
+var bpmGuardedFields = []string{"pageTable", "freeList", "pages", "replacer", "reUsablePageList"}
+
+func bpmRecvMutex(fn *ssa.Function) string { return "p:" + fn.Params[0].Name() + ".mutex" }
+
+// bpmCallEffect applies the helpers' contracts at call sites (same receiver only).
+func (w *World) bpmCallEffect(fn *ssa.Function, hs map[*ssa.Function]bpmHelper, onBad func(in ssa.Instruction, msg string)) func(c ssa.CallInstruction, st *LState) (map[string]string, []string) {
+	mu := bpmRecvMutex(fn)
+	return func(c ssa.CallInstruction, st *LState) (map[string]string, []string) {
+		f := c.Common().StaticCallee()
+		h, ok := hs[f]
+		if !ok || f == nil || len(c.Common().Args) == 0 || c.Common().Args[0] != ssa.Value(fn.Params[0]) {
+			return nil, nil
+		}
+		if h.Mixed {
+			if onBad != nil {
+				onBad(c, "call of "+f.Name()+", whose exits disagree on b.mutex")
+			}
+			return nil, nil
+		}
+		held := st.Holds(mu, false)
+		if h.EntryHeld && !held {
+			if onBad != nil {
+				onBad(c, "call of caller-holds function "+f.Name()+" at "+w.InstrPos(c)+" without the mutex")
+			}
+			return nil, nil
+		}
+		if h.EntryHeld && !h.ExitHeld {
+			return nil, []string{mu}
+		}
+		if !h.EntryHeld && h.ExitHeld {
+			if held {
+				if onBad != nil {
+					onBad(c, "call of "+f.Name()+", which locks b.mutex, at "+w.InstrPos(c)+" with the mutex held")
+				}
+				return nil, nil
+			}
+			return map[string]string{mu: "W"}, nil
+		}
+		return nil, nil
+	}
+}
+
+func (w *World) bpmHelpers() map[*ssa.Function]bpmHelper {
+	if w.bpmHelperCache != nil {
+		return w.bpmHelperCache
+	}
+	guarded := map[*types.Var]bool{}
+	for _, f := range bpmGuardedFields {
+		guarded[w.Field("storage/buffer", "BufferPoolManager", f)] = true
+	}
+	hs := map[*ssa.Function]bpmHelper{}
+	var cands []*ssa.Function
+	for _, fn := range w.methodsOf("storage/buffer", "BufferPoolManager") {
+		if callerHoldsBPMExported[fn.Name()] {
+			hs[fn] = bpmHelper{EntryHeld: true, ExitHeld: true}
+		} else if !token.IsExported(fn.Name()) {
+			cands = append(cands, fn)
+		}
+	}
+	// probe: does the body need the mutex on entry? (release of the unheld mutex, guarded field touched without
+	// it, caller-holds helper called without it); iterate because helpers call helpers
+	for round := 0; round < 4; round++ {
+		changed := false
+		for _, fn := range cands {
+			fn := fn
+			mu := bpmRecvMutex(fn)
+			try := func(entryHeld bool) (needs bool, exits map[bool]bool) {
+				exits = map[bool]bool{}
+				init := map[string]string{}
+				if entryHeld {
+					init[mu] = "W"
+				}
+				lw := &LockWalk{W: w, Fn: fn, Init: init,
+					OnInstr: func(in ssa.Instruction, st *LState) {
+						if fa, ok := in.(*ssa.FieldAddr); ok {
+							if sst, ok := derefStruct(fa.X.Type()); ok && guarded[sst.Field(fa.Field)] && !st.Holds(mu, false) {
+								needs = true
+							}
+						}
+					},
+					OnReturn: func(ret *ssa.Return, st *LState) { exits[st.Holds(mu, false)] = true },
+					OnIssue: func(kind string, in ssa.Instruction, name string, st *LState) {
+						if kind == "release-not-held" && strings.HasSuffix(name, ".mutex") {
+							needs = true
+						}
+					},
+				}
+				lw.CallEffect = w.bpmCallEffect(fn, hs, func(ssa.Instruction, string) { needs = true })
+				lw.Run()
+				return
+			}
+			needs, exits := try(false)
+			h := bpmHelper{}
+			if needs {
+				_, exits = try(true)
+				h.EntryHeld = true
+			}
+			if len(exits) > 1 {
+				h.Mixed = true
+			} else {
+				for k := range exits {
+					h.ExitHeld = k
+				}
+			}
+			if old, ok := hs[fn]; !ok || old != h {
+				hs[fn] = h
+				changed = true
+			}
+		}
+		if !changed {
+			break
+		}
+	}
+	w.bpmHelperCache = hs
+	return hs
+}
 
 func uniq(s []string) []string {
 	seen := map[string]bool{}
